@@ -48,6 +48,7 @@ def alphabet(tier):
     ops.append(("unprot", "L"))
     for t in ("D1", "D2"):
         ops.append(("edit", t))            # the user rewrites the first file: later staging is partially warm
+        ops.append(("edit-last", t))       # ... or the last one (listing order is the file system's business)
         ops.append(("stur", t, "L"))       # upload staging while the source files are being appended to
     return ops
 
@@ -116,6 +117,13 @@ def run_history(hist, with_state):
 
     viol = []
     steps = 0
+    import dvc_data.hashfile.build as _B
+
+    from . import C03 as _C03
+
+    # the hashing pool returns its results in reversed completion order (deterministic, and a legal schedule)
+    _B.ThreadPoolExecutor = _C03.PermExec
+    _C03._PERM.update(order=[1, 0], used=0, sizes=[])
     with World() as w:
         cur = {}
         for t, files in TREES.items():
@@ -157,8 +165,8 @@ def run_history(hist, with_state):
                         staging, _m, obj = build(odb, w.p("ws", op[1]), mfs, "md5", upload=True)
                         stagings.add(staging.path)
                         transfer(staging, odb, {obj.hash_info}, shallow=False, hardlink=False)
-                    elif op[0] == "edit":
-                        first = sorted(cur[op[1]])[0]
+                    elif op[0] in ("edit", "edit-last"):
+                        first = sorted(cur[op[1]])[0 if op[0] == "edit" else -1]
                         pth = os.path.join(w.p("ws", op[1]), *first.split("/"))
                         with open(pth, "wb") as fh:
                             fh.write(b"edited-%d" % i)
@@ -201,7 +209,7 @@ def run_history(hist, with_state):
                 except Exception as e:  # noqa: BLE001
                     viol.append((f"operation-raises-{type(e).__name__}/{op[0]}", f"step {i} {op}: {e!r}"))
                 # audit every store after every step
-                if op[0] in ("edit", "stur"):
+                if op[0] in ("edit", "edit-last", "stur"):
                     from ..world import walk_files
 
                     cur[op[1]] = {k: v for k, v in walk_files(w.p("ws", op[1])).items()}
